@@ -7,6 +7,7 @@ CONSTANTS
   AllowPtr = TRUE
   AllowConstPtr = FALSE
   AllPerms = TRUE
+  ChainMode = FALSE
   Stepwise = FALSE
 INVARIANTS Agree
 CHECK_DEADLOCK FALSE
